@@ -6,12 +6,13 @@ import sys
 
 from .. import common as C
 from .. import dedupelab as D
+from .. import shimlab as S
 
 ID = "C20"
 LEVEL = "exploration"
 RULE = ("two (quick) / three (thorough) groups of 3 identical files; every subset of the droppable members locked by a "
         "foreign process holding fcntl write locks or read (shared) locks on the whole file, or exclusive locks on a byte range (first byte, last byte, at the end of the data, far beyond it) x op {remove, link, link --soft, dedupe, "
-        "move, move to a directory on another mount point known to fclones (loop-mounted ext4 image)} x {default, --no-lock}; and a group in which the locked file has three hard-linked names among the droppable members (report made with and without -H, lock taken through each name). and the same run by an unprivileged user (setpriv, uid 65534) with the locked members read-only (0444) or writable for that user. Oracle (a lock is on the file: every name of a locked inode counts as locked): locked members keep inode, bytes and path and are named in a warning; "
+        "move, move to a directory on another mount point known to fclones (loop-mounted ext4 image)} x {default, --no-lock}; and a group in which the locked file has three hard-linked names among the droppable members (report made with and without -H, lock taken through each name). and the same run by an unprivileged user (setpriv, uid 65534) with the locked members read-only (0444) or writable for that user. Every run is traced by the interposer: no rename / link / unlink / truncate may touch a locked file even temporarily. Oracle (a lock is on the file: every name of a locked inode counts as locked): locked members keep inode, bytes and path and are named in a warning; "
         "every other droppable member is processed; with --no-lock every droppable member is processed. "
         "Non-trivial = at least one member locked; distinct by (subset, lock type, op, flag).")
 ASSUMPTIONS = ["for `dedupe` on a file system without reflink support only 'locked members untouched' can be checked",
@@ -41,7 +42,7 @@ sys.stdin.read()
 
 
 def prepare(tier):
-    C.build_hooks()
+    S.prepare()
 
 
 def tree(ngroups):
@@ -199,7 +200,9 @@ def evaluate(case):
                 target = os.path.join(loop.mp, "moved")
                 op = "move"
             try:
-                r = D.run_dedupe(sc, op, ["--no-lock"] if case["no_lock"] else [], report, target=target)
+                # under the interposer, so that even a temporary rename of a locked file is seen
+                dargs = list(D.OPS[op]) + (["--no-lock"] if case["no_lock"] else []) + ([target] if op == "move" else [])
+                r = S.run_with_shim(sc, dargs, [sc.tree, target], "m", stdin=report, env_extra={"RAYON_NUM_THREADS": "1"})
             finally:
                 if loop:
                     loop.__exit__()
@@ -212,6 +215,16 @@ def evaluate(case):
             viol.append(dict(feat, kind="crash", detail="rc=%s %s" % (r["rc"], r["err"][-300:])))
         warns = D.warnings(r["err"])
         locked_inodes = set(before[sc.path(x).decode()]["ino"] for x in case["locked"])
+        if not case["no_lock"]:
+            locked_paths = set(p for p, b in before.items() if b["ino"] in locked_inodes and b["type"] == "file")
+            for ev in r["events"]:
+                if ev.call in ("open", "write"):
+                    continue      # the lock probe opens the file for writing; nothing is written
+                hit = [q for q in S.mutated_paths(ev) if q in locked_paths]
+                if hit and ev.ret >= 0:
+                    viol.append(dict(feat, kind="locked_file_touched_temporarily",
+                                     detail="%s is locked by another process, yet `%s` issued %r (the end state may look untouched)" % (
+                                         hit[0], case["op"], ev)))
         feat["locked_file_has_several_names"] = bool(case.get("links")) and any(x.startswith(("r/b/h", "r/c/h")) for x in case["locked"])
         for rel in case["droppable"]:
             p = sc.path(rel).decode()
